@@ -125,7 +125,8 @@ pub fn shrink(plan: &Plan, oracle: &str, max_runs: u32) -> Option<Shrunk> {
     }
     let keys: Vec<String> = s.best.knobs.keys().cloned().collect();
     for k in keys {
-        if k == "nch" || k.starts_with("ch") || k.starts_with("keep_") {
+        // configuration-lattice scenarios: the knobs ARE the case, removing one changes the configuration
+        if k == "nch" || k.starts_with("ch") || k.starts_with("keep_") || s.best.scenario == "pc_connect" {
             continue;
         }
         let mut c = s.best.clone();
